@@ -134,17 +134,36 @@ impl Rng {
 pub struct GenRng {
     pub rng: Rng,
     pub p_max: f64,
+    /// forced draws (draw index counted over next_u32 and next_u64 calls, value)
+    pub force: Vec<(u32, u64)>,
+    pub draws: u32,
+}
+
+impl GenRng {
+    #[inline]
+    fn forced(&mut self) -> Option<u64> {
+        let i = self.draws;
+        self.draws = self.draws.wrapping_add(1);
+        if self.force.is_empty() {
+            return None;
+        }
+        self.force.iter().find(|(k, _)| *k == i).map(|(_, v)| *v)
+    }
 }
 
 impl rand::RngCore for GenRng {
     fn next_u32(&mut self) -> u32 {
-        (self.rng.next() >> 32) as u32
+        let v = (self.rng.next() >> 32) as u32;
+        match self.forced() {
+            Some(f) => f as u32,
+            None => v,
+        }
     }
     fn next_u64(&mut self) -> u64 {
-        if self.p_max > 0.0 && self.rng.chance(self.p_max) {
-            u64::MAX
-        } else {
-            self.rng.next()
+        let v = if self.p_max > 0.0 && self.rng.chance(self.p_max) { u64::MAX } else { self.rng.next() };
+        match self.forced() {
+            Some(f) => f,
+            None => v,
         }
     }
     fn fill_bytes(&mut self, dest: &mut [u8]) {
